@@ -20,35 +20,54 @@ THEOREMS = [
     "TornadoModel.C26.pjoin_simple",
     "TornadoModel.C26.prefix_is_containment",
     "TornadoModel.C26.root_test_is_containment",
+    "TornadoModel.C26.join_name_inside",
+    "TornadoModel.C26.served_inside_spec",
+    "TornadoModel.C26.default_file_denotes",
+    "TornadoModel.C26.handle_inside_spec",
+    "TornadoModel.C26.handle_redirect_inside_spec",
+    "TornadoModel.C26.handle_outcome_cases",
 ]
 TRUSTED = [
     "CPython posixpath.join/normpath/abspath (C `_path_normpath`), urllib.parse.unquote_to_bytes and the UTF-8 decoder, "
     "modelled by hand in C26/Model.lean and exercised by the correspondence stream",
     "os.path.isdir/exists/isfile answer for the exact string they are given (fixture tree without symlinks, case-sensitive POSIX filesystem)",
-    "the routing regex `<prefix>(.*)` is modelled as prefix stripping",
+    "the routing regexes `<prefix>(.*)`, `(.*)`, `/*(.*)` are modelled as prefix / slash-run stripping; the request-line grammar "
+    "(`httputil._ABNF.request_line`) as `validTarget` (non-empty, characters in [\\x21-\\x7e\\x80-\\xff])",
+    "the oracle's notion of 'the file the URL denotes' uses CPython posixpath.join/normpath and urllib.parse.unquote_to_bytes directly "
+    "(not the Lean model) plus the fixture listing",
 ]
 ASSUMPTIONS = [
     "the configured root is an absolute path (os.getcwd() is not modelled) and is not `/`",
     "no symlinks inside the tree; POSIX path separator (parse_url_path is the identity)",
-    "default_filename is a plain file name (theorem hypothesis `SimpleName`)",
-    "request targets are origin-form, ASCII or latin-1, at most a few hundred characters",
+    "default_filename is configuration and a plain file name: non-empty, not `.`/`..`, no `/` (theorem hypothesis `Good d` of "
+    "served_inside_spec / join_name_inside; with `../x` the joined path leaves the root — non-vacuity example in Props.lean)",
+    "request targets are latin-1 text of at most a few hundred characters (any form: the request-line grammar is modelled, "
+    "targets with whitespace/control characters answer 400)",
 ]
-RULE = ("GET <prefix><path> through a real Application/HTTPServer over a fake transport; path built from '..', '.', '', absolute "
-        "fixture paths, sibling names sharing the root's prefix, percent-encoded / . \\ NUL and invalid UTF-8, backslashes, long runs; "
+RULE = ("GET (15 % HEAD) <prefix><path> through a real Application/HTTPServer over a fake transport, URL pattern /s/(.*), /s(.*), /(.*), (.*) or /*(.*); "
+        "path built from '..', '.', '', absolute "
+        "fixture paths, sibling names sharing the root's prefix, percent-encoded / . \\ NUL and invalid UTF-8, backslashes, long runs, "
+        "and (4 %) a raw whitespace/control/high character; "
         "non-trivial = the path contains a dot segment, an empty segment, an escape or leaves/re-enters the root; distinct by canonical JSON")
 EXHAUSTIVE = {"quick": False, "thorough": False}
 CLAUSE_CAVEATS = [
-    'served_inside_root shows the default-file path is pjoin(a, default_filename) with the root test applied to a; that the joined path is inside root additionally needs default_filename to be a plain file name (true for the configured values the tie uses), not proved as a theorem',
-    "the oracle accepts any 4xx for refused paths (the model's outcomes are 403/404, and 400 for paths with NUL)",
+    "'everything else yields 403 or 404' holds for everything that reaches StaticFileHandler.get (outcome_cases); a request that is "
+    "rejected earlier answers 400 — exactly when the request line is malformed or the captured group is not percent-encoded UTF-8 "
+    "(handle_outcome_cases; no filesystem query is made). The oracle accepts 400 only in those two situations, decided independently "
+    "of the model (request-line regex, unquote_to_bytes + UTF-8), and only without any filesystem query",
 ]
 CLAUSES = {
     "serves, redirects or reveals existence only if the normalized absolute path lies inside root":
-        "served_inside_root + handle_inside_root (every filesystem query, opened file and redirect only after the root test passed on the "
+        "served_inside_spec / handle_inside_spec / handle_redirect_inside_spec (run level: every filesystem query, the opened file and the "
+        "redirected-for directory satisfy Spec.inside root) via served_inside_root + handle_inside_root (only after the root test passed on the "
         "normalized path) + normpath_no_dotdot/absolutePath_normalized (that path has no '..') + prefix_is_containment / "
         "root_test_is_containment (for an absolute root other than '/': string test <=> Spec.inside component-wise, same number of leading "
         "slashes); the oracle additionally applies Spec.inside to every recorded filesystem query",
-    "including the default file of a directory": "served_inside_root (path is a or join(a, default_filename)) + pjoin_simple",
-    "everything else yields 403 or 404": "outside_root_uniform_403 (403 before any filesystem query, for every filesystem) + outcome_cases",
+    "including the default file of a directory": "served_inside_spec / handle_inside_spec / handle_redirect_inside_spec (every looked-at and opened path, a or join(a, default_filename), "
+        "satisfies Spec.inside root, for a plain default_filename) + join_name_inside + default_file_denotes (the joined path denotes "
+        "the entry default_filename of the directory the URL denotes)",
+    "everything else yields 403 or 404": "outside_root_uniform_403 (403 before any filesystem query, for every filesystem) + outcome_cases "
+        "(handler) + handle_outcome_cases (whole request: additionally 404 not routed; 400 only for a malformed request line or an undecodable group)",
     "sibling directories sharing the root's name prefix are excluded": "prefix_is_containment (root's component list must be a list prefix of the path's, so root2/rootx differ in a "
         "whole component) + sibling_excluded (string level: after the root text a `/` is demanded)",
 }
@@ -174,20 +193,38 @@ def _rand_path(rng):
     return p
 
 
+CTRL = ["\t", " ", "\x00", "\x0b", "\x0c", "\x1f", "\x7f", "\r", "\n", "\r\n", "\x80", "\xa0", "\xff"]
+# URL patterns: "<prefix>(.*)" for a literal prefix ("" = "(.*)"), and "/*(.*)"
+PATS = ["/s/", "/s/", "/s/", "/s/", "/s/", "/s/", "/", "", "/*", "/s"]
+
+
+def _pat_regex(pat):
+    return ("/*" if pat == "/*" else re.escape(pat)) + "(.*)"
+
+
 def gen_cases(rng, tier):
     _fx()
     n = {"quick": 4000, "thorough": 60000, "search": 6000}[tier]
     for _ in range(n):
         root = ROOTS[0] if rng.random() < 0.45 else rng.choice(ROOTS)
-        dflt = rng.choice(["index.html", "index.html", None, "b.txt", "index.dir"])
-        pat = "/s/"
-        target = pat + _rand_path(rng)
+        dflt = rng.choice(["index.html", "index.html", "index.html", None, None, "b.txt", "index.dir", "...", "..a", "sp ace.txt", "c.txt"])
+        pat = rng.choice(PATS)
+        lead = {"/*": rng.choice(["", "/", "//", "///"]), "": rng.choice(["", "/", "/", "//"])}.get(pat, pat)
+        target = lead + _rand_path(rng)
         r = rng.random()
         if r < 0.05:
             target += rng.choice(["?", "?v=1", "?a=/../", "?x=%2e%2e"])
         elif r < 0.07:
             target = rng.choice(["/", "/t/", "//s/", "/S/"]) + _rand_path(rng)
-        yield {"root": root, "default": dflt, "pat": pat, "target": target}
+        elif r < 0.11:      # whitespace / control / high characters somewhere in the target (request-line grammar)
+            i = rng.randrange(len(target) + 1)
+            target = target[:i] + rng.choice(CTRL) + target[i:]
+        if target == "":
+            target = rng.choice(["", "/"])
+        c = {"root": root, "default": dflt, "pat": pat, "target": target}
+        if rng.random() < 0.15:
+            c["method"] = "HEAD"
+        yield c
 
 
 # ------------------------------------------------------------------ implementation
@@ -224,9 +261,31 @@ class _Record:
 
     def __init__(self):
         self.calls = []
+        self.opened = []     # ["open"|"stat", path]: builtins.open / os.stat called from web.py (get_content, _stat)
 
     def __enter__(self):
-        import posixpath
+        import posixpath, builtins
+        from tornado import web
+        self.saved_os = web.os
+        rec = self
+
+        class _Os:      # web.py's view of `os`: stat is recorded, everything else passes through
+            def __getattr__(self, name):
+                return getattr(rec.saved_os, name)
+
+            def stat(self, p, *a, **k):
+                rec.opened.append(["stat", p if isinstance(p, str) else repr(p)])
+                return rec.saved_os.stat(p, *a, **k)
+
+        web.os = _Os()
+        self.saved_open = builtins.open
+
+        def _open(p, *a, **k):
+            if sys._getframe(1).f_code.co_filename.endswith(os.sep + "web.py"):
+                rec.opened.append(["open", p if isinstance(p, str) else repr(p)])
+            return rec.saved_open(p, *a, **k)
+
+        web.open = _open     # module-level name shadows the builtin for web.py only
         self.saved = {n: getattr(posixpath, n) for n in ("isdir", "exists", "isfile")}
         for n, f in self.saved.items():
             def wrap(p, _n=n, _f=f):
@@ -238,6 +297,9 @@ class _Record:
 
     def __exit__(self, *a):
         import posixpath
+        from tornado import web
+        web.os = self.saved_os
+        del web.open
         for n, f in self.saved.items():
             setattr(posixpath, n, f)
 
@@ -251,8 +313,8 @@ def run_impl(case):
     if case["default"] is not None:
         args["default_filename"] = case["default"]
     web.StaticFileHandler.reset()
-    app = web.Application([(re.escape(case["pat"]) + "(.*)", web.StaticFileHandler, args)])
-    raw = b"GET " + target.encode("latin1") + b" HTTP/1.1\r\nHost: h\r\n\r\n"
+    app = web.Application([(_pat_regex(case["pat"]), web.StaticFileHandler, args)])
+    raw = case.get("method", "GET").encode() + b" " + target.encode("latin1") + b" HTTP/1.1\r\nHost: h\r\n\r\n"
     with _Record() as rec:
         out = _http(app, raw)
     status, hdrs, body = _parse_response(out)
@@ -262,7 +324,14 @@ def run_impl(case):
             loc = [loc[0].encode("latin1").decode("utf-8")]
         except UnicodeDecodeError:
             pass
-    return {"status": status, "location": loc[0] if loc else None, "body": body.hex(), "queries": rec.calls}
+    clen = [v for k, v in hdrs if k == "content-length"]
+    return {"status": status, "location": loc[0] if loc else None, "body": body.hex(), "queries": rec.calls,
+            "clen": int(clen[0]) if clen and clen[0].isdigit() else None, "opened": rec.opened}
+
+
+def impl_view(case, impl):
+    """what the model predicts: status, Location, body, the isdir/exists/isfile queries (open/stat and Content-Length are for the oracle)"""
+    return {k: v for k, v in impl.items() if k not in ("clen", "opened")}
 
 
 # ------------------------------------------------------------------ model
@@ -278,8 +347,13 @@ def _fs_arg():
     return [[p, atom(k)] for p, k in sorted(_KINDS.items())]
 
 
+def _pat_arg(pat):
+    return {"": atom("all"), "/*": atom("slashes")}.get(pat, pat)
+
+
 def model_requests(case, impl):
-    return [line(ID, "handle", _sub(case["root"]), case["default"], case["pat"], _sub(case["target"]), _fs_arg())]
+    return [line(ID, "handle", _sub(case["root"]), case["default"], _pat_arg(case["pat"]), _sub(case["target"]), _fs_arg()),
+            line(ID, "validTarget", _sub(case["target"]))]
 
 
 REASONS = {400: "Bad Request", 403: "Forbidden", 404: "Not Found"}
@@ -301,43 +375,97 @@ def model_result(case, replies):
     else:
         code = {"notRouted": 404, "notFound": 404, "badRequest": 400, "forbidden": 403}[kind]
         out = {"status": code, "location": None, "body": _err_body(code).hex()}
+        st2, v2 = parse_reply(replies[1])
+        assert st2 == "ok", replies[1]
+        if _norm(v2[0]) is not True:      # malformed request line: the HTTP connection answers a bare 400, no error page
+            assert kind == "badRequest"
+            out["body"] = ""
     out["queries"] = qs
+    if case.get("method", "GET") == "HEAD" and not (kind == "badRequest" and out["body"] == ""):
+        out["body"] = ""      # HEAD: same outcome, headers only
     return out
 
 
 # ------------------------------------------------------------------ property oracle
 def _touched(case, impl):
-    return [q[1] for q in impl["queries"]]
+    return [q[1] for q in impl["queries"]] + [q[1] for q in impl.get("opened", [])]
+
+
+_REQUEST_TARGET = re.compile(r"[\x21-\x7e\x80-\xff]+")     # RFC 9112 request-target as tornado.httputil._ABNF spells it
+
+
+def _denoted(case):
+    """What the URL denotes, computed with the standard library only (independent of the Lean model):
+    ("malformed",) request line not `GET <vchar+> HTTP/1.1`; ("unrouted",) pattern does not match; ("undecodable",) captured group is
+    not percent-encoded UTF-8; else ("path", joined, normalized) with joined = posixpath.join(root, group)."""
+    import posixpath, urllib.parse
+    target = _sub(case["target"])
+    if not _REQUEST_TARGET.fullmatch(target):
+        return ("malformed",)
+    m = re.fullmatch(_pat_regex(case["pat"]), target.partition("?")[0], re.S)
+    if not m:
+        return ("unrouted",)
+    try:
+        group = urllib.parse.unquote_to_bytes(m.group(1).encode("utf-8")).decode("utf-8")
+    except UnicodeDecodeError:
+        return ("undecodable",)
+    joined = posixpath.join(_sub(case["root"]), group)
+    norm = posixpath.normpath(joined)
+    if norm.startswith("//"):      # POSIX leaves `//x` implementation-defined; on Linux it is `/x` (the fixture lookup uses that)
+        norm = norm[1:]
+    return ("path", joined, norm)
 
 
 def spec_requests(case, impl):
     root = _sub(case["root"])
-    return [line(ID, "inside", root, p) for p in _touched(case, impl)]
-
-
-def _inside_files(case):
-    """files below the configured root, by plain directory walk (independent of the model)"""
-    root = os.path.realpath(_sub(case["root"]))
-    return {p: d for p, d in _FILES.items() if p.startswith(root + os.sep)}
+    den = _denoted(case)
+    extra = [line(ID, "inside", root, den[1])] if den[0] == "path" else []
+    return [line(ID, "inside", root, p) for p in _touched(case, impl)] + extra
 
 
 def spec_violation(case, impl, replies):
     st = impl["status"]
-    for p, rep in zip(_touched(case, impl), replies):
+    touched = _touched(case, impl)
+    for p, rep in zip(touched, replies):
         s, vals = parse_reply(rep)
         if s != "ok" or _norm(vals[0]) is not True:
             return "filesystem query outside root: %r" % p.replace(_fx(), "{FX}")
-    if st == 200:
-        body = bytes.fromhex(impl["body"])
-        if body not in _inside_files(case).values():
-            where = [p for p, d in _FILES.items() if d == body]
-            return "200 with content not from inside root (%s)" % (where[0].replace(_fx(), "{FX}") if where else "unknown content")
+    den = _denoted(case)
+    den_inside = None
+    if len(replies) > len(touched):
+        s, vals = parse_reply(replies[len(touched)])
+        den_inside = s == "ok" and _norm(vals[0]) is True
+    if st in (200, 301, 302):
+        if den[0] != "path":
+            return "%d for a request that denotes no path (%s)" % (st, den[0])
+        if den_inside is not True:
+            return "%d for a path outside root: %r" % (st, den[1].replace(_fx(), "{FX}")[:80])
+        kind = _KINDS.get(den[2])
+        if st == 200:
+            body = bytes.fromhex(impl["body"])
+            want = None
+            if kind == "file":
+                want = _FILES[den[2]]
+            elif kind == "dir" and case["default"] is not None:
+                want = _FILES.get(os.path.join(den[2], case["default"]))
+            if case.get("method", "GET") == "HEAD" and want is not None:
+                if body != b"" or impl.get("clen") != len(want):
+                    return "HEAD 200 does not describe the denoted file (Content-Length %r)" % impl.get("clen")
+                return None
+            if want is None or body != want:
+                where = [p for p, d in _FILES.items() if d == body]
+                return "200 with content that is not the denoted file (%s)" % (where[0].replace(_fx(), "{FX}") if where else "unknown content")
+            return None
+        if kind != "dir":
+            return "redirect for something that is not a directory inside root"
         return None
-    if st in (301, 302):
-        if not impl["queries"]:
-            return "redirect without consulting the filesystem"
-        return None
-    if 400 <= st < 500:
+    if st == 400:
+        # not "403 or 404": only for requests rejected before StaticFileHandler.get runs (declared in CLAUSE_CAVEATS)
+        if den[0] not in ("malformed", "undecodable"):
+            return "400 for a well-formed request"
+        if touched:
+            return "400 after a filesystem query"
+    if st in (400, 403, 404):
         for p, d in _FILES.items():
             if d and d in bytes.fromhex(impl["body"]):
                 return "error page contains file content"
@@ -356,6 +484,10 @@ def stats(case, impl):
     for lab, tok in (("dotdot", ".."), ("abs", "{FX}"), ("pct", "%"), ("backslash", "\\"), ("nul", "%00"), ("dslash", "//")):
         if tok in t:
             out.append("has:" + lab)
+    out.append("pat:" + (case["pat"] or "(.*)"))
+    out.append("method:" + case.get("method", "GET"))
+    out.append("opened:%d" % len(impl.get("opened", [])))
+    out.append("denotes:" + _denoted(case)[0])
     return out
 
 
